@@ -119,42 +119,46 @@ End MergeFacts.
 
 (* ---- the loose side ------------------------------------------------------------------------ *)
 
-Definition file_wf (f : file) : Prop := forallb comp_wf (fst f) = true.
-Definition files_wf (files : list file) : Prop := Forall file_wf files /\ NoDup (map fname files).
+(* a file system has no path twice *)
+Definition files_wf (files : list file) : Prop := NoDup (map fname files).
 
-Definition fcmp (a b : file) : comparison := path_cmp (fst a) (fst b).
-
-Lemma fcmp_key : forall a b, file_wf a -> file_wf b -> fcmp a b = bytes_cmp (fname a) (fname b).
-Proof. intros a b Ha Hb. apply path_cmp_join; assumption. Qed.
+Definition ncmp (a b : file) : comparison := bytes_cmp (fname a) (fname b).
 
 Lemma walk_perm root files : Permutation (filter (under root) files) (walk root files).
 Proof. apply isort_perm. Qed.
 
-Lemma walk_strict root files : files_wf files ->
-  StronglySorted (klt fname) (walk root files).
+Lemma sort_by_name_perm l : Permutation l (sort_by_name l).
+Proof. apply isort_perm. Qed.
+
+Lemma sort_by_name_strict l : NoDup (map fname l) -> StronglySorted (klt fname) (sort_by_name l).
 Proof.
-  intros [Hwf Hnd]. unfold walk.
-  apply (sorted_nodup_strict fname).
-  - apply (isort_sorted fcmp fname file_wf fcmp_key).
-    apply Forall_forall. intros f Hf. apply filter_In in Hf. rewrite Forall_forall in Hwf. apply Hwf, Hf.
-  - eapply Permutation_NoDup; [apply Permutation_map, isort_perm|].
-    apply nodup_map_filter. exact Hnd.
+  intros Hnd. unfold sort_by_name. apply (sorted_nodup_strict fname).
+  - apply (isort_sorted ncmp fname (fun _ => True)); [reflexivity|].
+    apply Forall_forall. intros; exact I.
+  - eapply Permutation_NoDup; [apply Permutation_map, isort_perm|exact Hnd].
 Qed.
 
 Lemma sorted_loose_strict root prefix files : files_wf files ->
   StronglySorted (klt fname) (sorted_loose root prefix files).
-Proof. intros H. unfold sorted_loose. apply strict_filter. apply walk_strict. exact H. Qed.
+Proof.
+  intros Hnd. unfold sorted_loose. apply sort_by_name_strict.
+  apply nodup_map_filter.
+  eapply Permutation_NoDup; [apply Permutation_map, walk_perm|].
+  apply nodup_map_filter. exact Hnd.
+Qed.
 
 Lemma sorted_loose_in root prefix files f :
   In f (sorted_loose root prefix files) <->
   In f files /\ under root f = true /\
   (match prefix with Some p => starts_with (fname f) p | None => true end && name_ok (fname f)) = true.
 Proof.
-  unfold sorted_loose. rewrite filter_In.
-  split.
-  - intros [Hw Hc]. apply (Permutation_in _ (Permutation_sym (walk_perm root files))) in Hw.
+  unfold sorted_loose. split.
+  - intros H. apply (Permutation_in _ (Permutation_sym (sort_by_name_perm _))) in H.
+    apply filter_In in H. destruct H as [Hw Hc].
+    apply (Permutation_in _ (Permutation_sym (walk_perm root files))) in Hw.
     apply filter_In in Hw. tauto.
-  - intros [Hf [Hu Hc]]. split; [|exact Hc].
+  - intros [Hf [Hu Hc]]. apply (Permutation_in _ (sort_by_name_perm _)).
+    apply filter_In. split; [|exact Hc].
     apply (Permutation_in _ (walk_perm root files)). apply filter_In. tauto.
 Qed.
 
